@@ -13,7 +13,7 @@ import os
 from dataclasses import dataclass, replace
 from typing import Any, Dict, List, Optional, Tuple
 
-from .domains import (BoolV, BoundV, ClsV, Const, DictE, ElemE, ExcV, ExtV, Frame, FuncV, IdxE, IterV,
+from .domains import (LamV, BoolV, BoundV, ClsV, Const, DictE, ElemE, ExcV, ExtV, Frame, FuncV, IdxE, IterV,
                       LenV, ListE, MethV, ModV, NoneV, NumV, ObjE, Ref, S, State, StrV, TupleV, Unknown, Val)
 from .exchier import ExcHier
 from .front import AnalysisError, ClassInfo, FuncInfo, Program, norm
@@ -59,6 +59,7 @@ class Interp(ModelMixin):
         self.functions_entered: set = set()
         self.sites_seen: Dict[str, set] = {}
         self.depth = 0
+        self.lambdas = {}
 
     # ------------------------------------------------------------ reporting
     def note(self, msg):
@@ -182,6 +183,9 @@ class Interp(ModelMixin):
                 else:
                     raise AnalysisError(f'break/continue escaped {fi.qualname}')
                 s2.frames.pop()
+                depth_now = len(s2.frames)
+                if any(len(f) == 3 and f[0] in ('nonempty', 'emptystr') and f[2] > depth_now for f in s2.facts):
+                    s2.facts = {f for f in s2.facts if not (len(f) == 3 and f[0] in ('nonempty', 'emptystr') and f[2] > depth_now)}
                 val, s2 = self.on_return(fi, val, s2, node)
                 results.append((val, s2))
         return self.dedupe(results)
@@ -902,6 +906,9 @@ class Interp(ModelMixin):
                     visit_val(x)
             elif isinstance(v, (BoundV, MethV)):
                 visit_val(v.recv)
+            elif isinstance(v, LamV):
+                for _, x in v.captured:
+                    visit_val(x)
             elif isinstance(v, IterV):
                 visit_val(v.src)
                 visit_val(v.start)
@@ -1296,7 +1303,57 @@ class Interp(ModelMixin):
         raise AnalysisError('starred expression outside a call')
 
     def ev_Lambda(self, e, st):
-        return [(Unknown('lambda'), st)]
+        a = e.args
+        if a.vararg or a.kwarg or a.kwonlyargs or a.posonlyargs:
+            return [(Unknown('lambda'), st)]
+        free = {n.id for n in ast.walk(e.body) if isinstance(n, ast.Name)} - {x.arg for x in a.args}
+        captured = tuple(sorted(((n, st.frame.env[n]) for n in free if n in st.frame.env), key=lambda kv: kv[0]))
+        self.lambdas[id(e)] = (e, st.frame.func)
+        return [(LamV(id(e), captured), st)]
+
+    def call_lambda(self, lam, args, kwargs, st, node):
+        e, func = self.lambdas[lam.key]
+        params = [x.arg for x in e.args.args]
+        if len(args) > len(params):
+            return [(self.exc('TypeError', st, node, 'too many arguments for lambda'), st)]
+        env = dict(lam.captured)
+        defaults = e.args.defaults
+        bound = dict(zip(params, args))
+        for k, v in kwargs.items():
+            if k not in params or k in bound:
+                return [(self.exc('TypeError', st, node, f'unexpected argument {k} for lambda'), st)]
+            bound[k] = v
+        missing = [p for p in params if p not in bound]
+        if missing and (len(missing) > len(defaults) or params[-len(missing):] != missing):
+            return [(self.exc('TypeError', st, node, 'missing arguments for lambda'), st)]
+        if len(st.frames) >= MAX_DEPTH:
+            raise AnalysisError('call depth exceeded in lambda')
+        st = st.copy()
+        fr = Frame(func, id(node), len(st.frames))
+        fr.callnode = node
+        fr.serial0 = st.serial
+        fr.env = env
+        fr.env.update(bound)
+        st.frames.append(fr)
+        outs = []
+        pre = [(None, st)]
+        for p in missing:
+            dnode = defaults[len(defaults) - (len(params) - params.index(p))]
+            nxt = []
+            for _, s in pre:
+                for v, s2 in self.ev(dnode, s):
+                    if isinstance(v, Raise):
+                        s2.frames.pop()
+                        outs.append((v, s2))
+                    else:
+                        s2.frame.env[p] = v
+                        nxt.append((None, s2))
+            pre = nxt
+        for _, s in pre:
+            for v, s2 in self.ev(e.body, s):
+                s2.frames.pop()
+                outs.append((v, s2))
+        return outs
 
     def ev_NamedExpr(self, e, st):
         res = []
@@ -1462,9 +1519,18 @@ class Interp(ModelMixin):
                     continue
                 args, kw = av
                 if k.arg is None:
-                    self.note('**kwargs call')
                     for v, s2 in self.ev(k.value, s):
-                        nxt.append(((args, kw) if not isinstance(v, Raise) else v, s2))
+                        if isinstance(v, Raise):
+                            nxt.append((v, s2))
+                        elif isinstance(v, Ref) and v.kind == 'dict' and s2.get(v.sym).exact \
+                                and all(isinstance(a, Const) and isinstance(a.v, str) for a, _ in s2.get(v.sym).items):
+                            kw2 = dict(kw)
+                            for a, b in s2.get(v.sym).items:       # **{'name': value}: an exact mapping is expanded
+                                kw2[a.v] = b
+                            nxt.append(((args, kw2), s2))
+                        else:
+                            self.note('**kwargs call with a mapping that is not known key by key')
+                            nxt.append(((args, kw), s2))
                     continue
                 for v, s2 in self.ev(k.value, s):
                     if isinstance(v, Raise):
@@ -1496,6 +1562,8 @@ class Interp(ModelMixin):
             return self.model_method(f.recv, f.name, args, kwargs, st, node)
         if isinstance(f, ExtV):
             return self.model_ext(f.name, args, kwargs, st, node)
+        if isinstance(f, LamV):
+            return self.call_lambda(f, args, kwargs, st, node)
         if isinstance(f, Unknown):
             self.note(f'call of unknown value {norm(node.func)}')
             return [(Unknown('call ' + norm(node.func)), st)]
